@@ -13,8 +13,10 @@ def WOK (s : St) : Prop := ∀ a ∈ s.m.wlog, a < 16777216
 
 /-- the computation succeeds from every state (for `p = true`: every state whose `StepInfo.EA` is a 24-bit
 address, and it keeps it so) -/
-def Tot {α : Type} (p : Bool) (x : Ex α) : Prop :=
-  ∀ s, (p = true → EAok s) → ∃ a s', x s = some (a, s') ∧ (p = true → EAok s') ∧ (WOK s → WOK s')
+def Tot2 {α : Type} (p q : Bool) (x : Ex α) : Prop :=
+  ∀ s, (p = true → EAok s) → ∃ a s', x s = some (a, s') ∧ (q = true → EAok s') ∧ (WOK s → WOK s')
+
+def Tot {α : Type} (p : Bool) (x : Ex α) : Prop := Tot2 p p x
 
 variable {p : Bool}
 
@@ -209,28 +211,40 @@ theorem tot_addressing (m : AMode) : Tot p (addressing m) := by
   refine tot_bind _ _ tot_get (fun c => ?_)
   cases m <;> simp only <;> tot_tac
 
-/-- a `modify` that installs a 24-bit `EA` establishes the invariant for the rest of the step -/
-theorem tot_setEA {α : Type} (f : Regs → Regs) (hf : ∀ c, (f c).EA < 16777216) (rest : Ex α)
-    (h : Tot true rest) : Tot false (modify f >>= fun _ => rest) := by
-  intro s _
-  obtain ⟨a, s', e, _, w⟩ := h { s with r := f s.r } (fun _ => hf s.r)
-  exact ⟨a, s', by rw [bind_eq]; exact e, (by intro h; cases h), w⟩
+theorem tot2_bind {α β : Type} {p q r : Bool} (x : Ex α) (f : α → Ex β) (hx : Tot2 p q x) (hf : ∀ a, Tot2 q r (f a)) :
+    Tot2 p r (x >>= f) := by
+  intro s h
+  obtain ⟨a, s', e, h', w'⟩ := hx s h
+  obtain ⟨b, s'', e', h'', w''⟩ := hf a s' h'
+  refine ⟨b, s'', ?_, h'', fun w => w'' (w' w)⟩
+  rw [bind_eq, e]; exact e'
 
-theorem tot_stepWith (sem : U8 → RowSem) (adj : U8 → CycAdj) : Tot false (stepWith sem adj) := by
-  unfold stepWith
-  refine tot_bind _ _ ?_ (fun _ => ?_)
+/-- a `modify` that installs a 24-bit `EA` establishes the invariant for the rest of the step -/
+theorem tot_setEA (f : Regs → Regs) (hf : ∀ c, (f c).EA < 16777216) : Tot2 false true (modify f) := by
+  intro s _
+  exact ⟨(), { s with r := f s.r }, rfl, fun _ => hf s.r, id⟩
+
+/-- the decode stage succeeds from any state and installs a 24-bit `EA` -/
+theorem tot_decodeStage (sem : U8 → RowSem) (adj : U8 → CycAdj) : Tot2 false true (decodeStage sem adj) := by
+  unfold decodeStage
+  refine tot2_bind (q := false) _ _ ?_ (fun _ => ?_)
   · exact tot_modify _ (fun _ => rfl)
-  refine tot_bind _ _ tot_get (fun c => ?_)
-  refine tot_bind _ _ (tot_nRead _ _) (fun opb => ?_)
+  refine tot2_bind (q := false) _ _ tot_get (fun c => ?_)
+  refine tot2_bind (q := false) _ _ (tot_nRead _ _) (fun opb => ?_)
   simp only
-  refine tot_bind _ _ ?_ (fun _ => ?_)
+  refine tot2_bind (q := false) _ _ ?_ (fun _ => ?_)
   · exact tot_modify _ (fun _ => rfl)
-  refine tot_bind _ _ (tot_addressing _) (fun r => ?_)
+  refine tot2_bind (q := false) _ _ (tot_addressing _) (fun r => ?_)
+  refine tot2_bind (q := true) _ _ ?_ (fun _ => tot_pure _)
   apply tot_setEA
-  · intro c; unfold adjustRegs; exact mod_lt _
+  intro c; unfold adjustRegs; exact mod_lt _
+
+theorem tot_stepWith (sem : U8 → RowSem) (adj : U8 → CycAdj) : Tot2 false true (stepWith sem adj) := by
+  unfold stepWith
+  refine tot2_bind _ _ (tot_decodeStage sem adj) (fun row => ?_)
   refine tot_bind _ _ (tot_runP _) (fun _ => ?_)
   exact tot_modify _ (fun _ => rfl)
 
-theorem tot_step (v : Variant) : Tot false (step v) := tot_stepWith _ _
+theorem tot_step (v : Variant) : Tot2 false true (step v) := tot_stepWith _ _
 
 end Cpu
